@@ -25,7 +25,7 @@ KeyCases == { [what |-> "key", content |-> c] : c \in {"empty", "short", "odd", 
 
 ThreeK3yCases == { [what |-> "3k3y", len |-> n, wm |-> w] : n \in {3951, 3952, 3953, 3968, 3984, 4207, 4208, 4209}, w \in {"enc", "dec"} }
 
-NameCases == { [what |-> "names", kind |-> k] : k \in {"len255", "len200", "nonutf8", "collide", "many1000", "deep30", "controlchars"} }
+NameCases == { [what |-> "names", kind |-> k] : k \in {"len255", "len200", "nonutf8", "collide", "many1000", "deep30", "controlchars", "links"} }
 
 AllCases == SfoCases \cup RegionCases \cup KeyCases \cup ThreeK3yCases \cup NameCases
 
